@@ -86,6 +86,10 @@ def check_mass_table(repo, chk):
 
 
 def run(repo, chk, tier, parts=("dalitz", "boost", "helicity", "frame")):
+    if len(parts) == 4:
+        from ..cacheown import check_persistent_state
+
+        check_persistent_state(repo, chk, ["tf_pwa/data_trans/", "tf_pwa/cal_angle.py", "tf_pwa/angle.py"])
     chk.rule("E6-dalitz", "momenta built from Dalitz variables reproduce them: energy-momentum conservation, mass shells, (p1+p2)^2=m12, (p2+p3)^2=m23")
     chk.rule("E6-boost", "boost round trip, invariance of M2 / Dot, boost matrix == vector boost, rest_vector == boost by -p/E")
     chk.assume("tensor component model: a four-vector is an object array of 4 sympy expressions; tf.stack/concat/expand_dims/reduce_sum/eye follow numpy broadcasting semantics")
